@@ -398,8 +398,9 @@ def make_inline_cell_conflict(base_cells, local_diff, remote_diff):
     rremove = remote_diff[1].length if len(remote_diff) > 1 else 0
 
     start = local_diff[0].key
-    lkeep = max(0, lremove - rremove)
-    rkeep = max(0, rremove - lremove)
+    # The base cells that only the other side removes are kept by this side
+    lkeep = max(0, rremove - lremove)
+    rkeep = max(0, lremove - rremove)
 
     # Copy the base cells, so that the decisions do not share structure with base
     lcells = local_diff[0].valuelist + copy.deepcopy(base_cells[start : start + lkeep])
